@@ -171,11 +171,16 @@ func (r *Run) c03Counters(sums *Summaries) {
 	}
 	// writers
 	allowed := map[string]bool{"spawn": true, "NewPopulationRandom": true, "ReadPopulation": true}
+	pinned := PinnedFuncs()
+	srcFuncs := p.SrcFuncs()
 	for _, f := range []string{"nextInnovNum", "nextNodeId"} {
 		var bad []string
-		for _, fn := range p.SrcFuncs() {
+		for _, fn := range srcFuncs {
 			for _, st := range FieldStores(fn, pop(f)) {
-				if !allowed[fn.Name()] {
+				// the declaration of a new unexported helper that nothing refers to any more (all its calls were
+				// expanded in place) is not a writer of its own: its stores are counted in the functions they were
+				// expanded into, where this check and the spawn / ReadPopulation checks below see them
+				if !allowed[fn.Name()] && !p.expandedAway(fn, pinned) {
 					bad = append(bad, FuncName(fn)+" at "+p.Pos(st.Pos()))
 				}
 			}
